@@ -6,6 +6,8 @@ import ExponaxModel.Proofs.SymmetryND2
 import ExponaxModel.Proofs.EquivarianceNDSteps
 import ExponaxModel.Proofs.AxisPermEmbedAxis
 import ExponaxModel.Proofs.AxisPermTermsMC
+import ExponaxModel.Proofs.SmallGaps3AxisPermVortSteps
+import ExponaxModel.Proofs.SmallGaps3AxisPerm
 /-
 C08 — steppers commute with the symmetries of the periodic box.
 Translation (1-D, one channel, every `N ≥ 1`, every state): forward and inverse shift theorem, equivariance of every
@@ -522,6 +524,84 @@ theorem C08_step_of_embedded_state_any_axis :
                                       (EquivND.specMC 1 c.N #[w]))
                                     0) :=
   @Exponax.AxisPerm.E4_general_embedAxis
+
+
+
+/-! ### axis permutation for the remaining terms: Cahn–Hilliard and pointwise reactions (Gray–Scott, BZ) commute with every axis
+permutation; the 2-D vorticity is a pseudo-scalar — under the swap of the two axes the term and the whole step commute with
+ω ↦ −P_σ ω (unforced; the Kolmogorov injection singles out an axis) -/
+
+open Exponax.SmallGaps3 Exponax.AxisPerm in
+theorem C08_cahn_hilliard_commutes_with_axis_permutation :
+    ∀ (c : Nonlin.Cfg ℂ),
+      AxisPerm.PermCfg c →
+        ∀ (σ : Equiv.Perm (Fin c.D)) (scale : ℂ),
+          scale.im = 0 →
+            ∀ (uh uh' : Nonlin.MC ℂ),
+              AxisPerm.MCSpecPerm c σ id uh uh' →
+                AxisPerm.MCSpecPerm c σ id (Nonlin.cahnHilliard c scale uh) (Nonlin.cahnHilliard c scale uh') :=
+  @Exponax.SmallGaps3.cahnHilliard_mcSpecPerm
+
+open Exponax.SmallGaps3 Exponax.AxisPerm in
+theorem C08_reaction_commutes_with_axis_permutation :
+    ∀ (c : Nonlin.Cfg ℂ),
+      AxisPerm.PermCfg c →
+        ∀ (σ : Equiv.Perm (Fin c.D)) (C : ℕ) (react : List ℂ → List ℂ),
+          (∀ (l : List ℂ), (∀ x ∈ l, x.im = 0) → ∀ (ch : ℕ), ((react l).getD ch 0).im = 0) →
+            ∀ (uh uh' : Nonlin.MC ℂ),
+              AxisPerm.MCSpecPerm c σ id uh uh' →
+                AxisPerm.MCSpecPerm c σ id (Nonlin.reaction c C react uh) (Nonlin.reaction c C react uh') :=
+  @Exponax.SmallGaps3.reaction_mcSpecPerm
+
+open Exponax.SmallGaps3 Exponax.AxisPerm in
+theorem C08_vorticity_term_under_axis_swap :
+    ∀ (c : Nonlin.Cfg ℂ),
+      AxisPerm.PermCfg c →
+        ∀ (hD : 2 ≤ c.D) (scale : ℂ),
+          scale.im = 0 →
+            ∀ (uh uh' : Nonlin.MC ℂ),
+              AxisPerm.MCSpecPerm c (swapσ c hD) id uh uh' →
+                AxisPerm.MCSpecPerm c (swapσ c hD) id (Nonlin.vorticity2d c scale none uh)
+                  (negMC c (Nonlin.vorticity2d c scale none uh')) :=
+  @Exponax.SmallGaps3.vorticity2d_swap
+
+open Exponax.SmallGaps3 Exponax.AxisPerm in
+theorem C08_vorticity_step_under_axis_swap :
+    ∀ (c : Nonlin.Cfg ℂ),
+      AxisPerm.PermCfg c →
+        ∀ (hD : 2 ≤ c.D) (scale : ℂ),
+          scale.im = 0 →
+            ∀ {E Eh c1 c2 c3 c4 c5 c6 : ℕ → ℕ → ℂ},
+              AxisPerm.IsoCoef c (swapσ c hD) id E E →
+                AxisPerm.IsoCoef c (swapσ c hD) id Eh Eh →
+                  AxisPerm.IsoCoef c (swapσ c hD) id c1 c1 →
+                    AxisPerm.IsoCoef c (swapσ c hD) id c2 c2 →
+                      AxisPerm.IsoCoef c (swapσ c hD) id c3 c3 →
+                        AxisPerm.IsoCoef c (swapσ c hD) id c4 c4 →
+                          AxisPerm.IsoCoef c (swapσ c hD) id c5 c5 →
+                            AxisPerm.IsoCoef c (swapσ c hD) id c6 c6 →
+                              ∀ (n : ℕ) (u u' : Nonlin.MC ℂ),
+                                (∀ (ch : ℕ), AliasND.IsRealND c.D c.N (Array.getD u ch #[])) →
+                                  (∀ (ch : ℕ), AxisPerm.NyqFreeS c.D c.N (Transform.rfftnM c.D c.N (Array.getD u ch #[]))) →
+                                    (∀ (ch j : ℕ),
+                                        j < c.N ^ c.D →
+                                          (Array.getD u' ch #[]).getD j 0 =
+                                            -(Array.getD u ch #[]).getD (AxisPerm.permIdx c.D c.N (swapσ c hD) j) 0) →
+                                      ∀ (ch j : ℕ),
+                                        j < c.N ^ c.D →
+                                          (EquivND.physCh c.D c.N
+                                                  ((Gen.Etdrk.E4step E Eh c1 c2 c3 c4 c5 c6
+                                                        (EquivND.liftTermND c 1 (Nonlin.vorticity2d c scale none)))^[n]
+                                                    (EquivND.specMC c.D c.N u'))
+                                                  ch).getD
+                                              j 0 =
+                                            -(EquivND.physCh c.D c.N
+                                                    ((Gen.Etdrk.E4step E Eh c1 c2 c3 c4 c5 c6
+                                                          (EquivND.liftTermND c 1 (Nonlin.vorticity2d c scale none)))^[n]
+                                                      (EquivND.specMC c.D c.N u))
+                                                    ch).getD
+                                                (AxisPerm.permIdx c.D c.N (swapσ c hD) j) 0 :=
+  @Exponax.SmallGaps3.E4_axisSwap_vorticity
 
 
 end Exponax
